@@ -10,13 +10,18 @@ from .c06 import spec_price
 DAY = 86400
 
 
-def csv_market(rng, assets, d0, d1, exact, late=None, holes=None):
+def csv_market(rng, assets, d0, d1, exact, late=None, holes=None, adjust=None):
     """daily bars for every weekday in [d0 - 3, d1 + 3]; late: asset -> first day with data;
     holes: asset -> set of days whose row is missing from that asset's file (a per-asset holiday)"""
     out = {}
+    if adjust is None:
+        adjust = rng.random() < 0.4
     for a in assets:
         p = bl.dy(rng, 8, 250, 8)
         rows = []
+        # back-adjustment: Adj Close = factor x Close, the factor stepping at a split / dividend day
+        step_day = rng.randint(d0 - 3, d1 + 3)
+        f_before, f_after = (rng.choice([0.5, 0.25, 0.75, 1.0]), rng.choice([1.0, 1.0, 0.5])) if adjust else (1.0, 1.0)
         blank_lead = late is not None and rng.random() < 0.6     # aligned export: early rows exist but are blank
         for d in range(d0 - 3, d1 + 4):
             if sl.weekday(d) > 4:
@@ -34,12 +39,14 @@ def csv_market(rng, assets, d0, d1, exact, late=None, holes=None):
             p = c
             if holes and d in holes.get(a, ()):
                 continue
-            rows.append([d, o, c, c])
+            rows.append([d, o, c, c * (f_before if d < step_day else f_after)])
             if rng.random() < 0.04:
-                rows[-1][rng.choice([1, 2])] = None
-                rows[-1][3] = rows[-1][2]
+                k = rng.choice([1, 2])
+                rows[-1][k] = None
+                if k == 2:
+                    rows[-1][3] = None
         out[a.replace('EQ:', '')] = rows
-    return {'kind': 'csv', 'assets': out, 'adjust': False}
+    return {'kind': 'csv', 'assets': out, 'adjust': bool(adjust)}
 
 
 def future_rewrite(rng, market, T, mode):
@@ -64,6 +71,12 @@ def future_rewrite(rng, market, T, mode):
                 elif mode in ('rewrite', 'shuffle'):
                     k = rng.choice([0.5, 2.0, 1.5])
                     new.append([r[0]] + [None if v is None else max(1.0, v * k + rng.randint(-8, 8) / 8) for v in r[1:]])
+            fut = [r for r in new if r[0] > T]
+            if fut and rng.random() < 0.25:
+                # a corrupt (zero / negative) price somewhere in the future must not matter before it is reached
+                r = rng.choice(fut)
+                k = rng.choice([1, 2, 3])
+                r[k] = rng.choice([0.0, -5.0])
             m['assets'][a] = new if new else rows[:1]      # never an empty file (pandas cannot load one)
     return m
 
